@@ -140,7 +140,7 @@ def run(ctx: Ctx) -> Outcome:
     common.use_repo()
     out = Outcome('C03')
     cases = [ctx.replay['replay']['case']] if ctx.replay else build_cases(ctx)
-    results = cc.run_compile_cases(cases, procs=12)
+    results = cc.run_compile_cases(cases, procs=14)
     sem, keep = [], []
     timeouts = 0
     for c, r in zip(cases, results):
@@ -155,7 +155,7 @@ def run(ctx: Ctx) -> Outcome:
         keep.append((c, r))
     if not sem:
         raise MachineryError('no case produced an observation')
-    verdicts, states, trans, selftest = cc.validate_with_selftest(SPEC, CFG, sem, ctx.scratch, min(6, len(sem)), 'C03')
+    verdicts, states, trans, selftest = cc.validate_with_selftest(SPEC, CFG, sem, ctx.scratch, 3, 'C03')
     for idx, _step, clause, _extra in verdicts:
         c, r = keep[idx]
         inp = {k: c[k] for k in ('table', 'state', 'pairs', 'items') if k in c}
